@@ -101,7 +101,7 @@ var c16NameRe = regexp.MustCompile(`^\s*"([^"]+)":\s*[a-zA-Z]+Exec[A-Za-z]*,`)
 
 func c16MethodNames() []string {
 	seen := map[string]bool{}
-	files, _ := filepath.Glob("/repo/pkg/value/*.go")
+	files, _ := filepath.Glob(c04RepoDir() + "/pkg/value/*.go")
 	for _, f := range files {
 		b, err := os.ReadFile(f)
 		if err != nil {
